@@ -46,19 +46,8 @@ def observed_triples(d, structs):
     return out, structs.get(name, {}).get("sizeof")
 
 
-def main():
-    chk = Check("C08")
-    chk.build()
-    quick = chk.tier == "quick"
-    cases = codec.gen_schemas(chk.tier, chk.seed, want_random=200 if quick else 4000, k=2)
-    if quick:
-        cases = [c for i, c in enumerate(cases) if c[0] != "exhaustive" or i % 4 == 0]
-    corp = []
-    for pid in ("C08", "C03", "C01", "C04"):
-        for f, t, vs, j in codec.load_corpus(pid):
-            if f not in [c[1] for c in corp]:
-                corp.append(("corpus", f, t))
-    cases = corp + cases
+def layout_pass(chk, cases, prefix=""):
+    """compile the generated raw header of every case and compare offsetof/sizeof inside Coq (raw_case)"""
     cj = [{"id": i, "schema": t, "text": S.to_prophy(t), "root": t[1], "ops": [["layout"]]} for i, (_, _, t) in enumerate(cases)]
     out = cpprun.run_raw(cj, timeout=300)
     entries = []
@@ -103,15 +92,32 @@ def main():
         if r[:1] == [89]:
             # the compiled header agrees with the spec but not with the generator model the C08 theorem is
             # about: the tie of the theorem to the code is broken, the property itself was not seen to fail
-            chk.violation("corr-%d" % i, {"kind": "correspondence broken: PcModel.pc_raw_layout (theorem C08_raw_member_offsets) no longer "
+            chk.violation(prefix + "corr-%d" % i, {"kind": "correspondence broken: PcModel.pc_raw_layout (theorem C08_raw_member_offsets) no longer "
                                                   "describes the generated header although the header still matches the wire layout",
                                           "label": label, "schema_text": S.to_prophy(t), "schema": t, "result": r[:10]},
                           note="no-failing-input-found")
             continue
-        chk.violation("raw-%d" % i, {"kind": "a member of the generated raw struct is not at its wire offset, or sizeof of a fixed type is not its wire size "
+        chk.violation(prefix + "raw-%d" % i, {"kind": "a member of the generated raw struct is not at its wire offset, or sizeof of a fixed type is not its wire size "
                                              "(result = [88; sizeof ok; wire size; expected (part, offset, value offset)...]; 87: a member is missing in the header)",
                                      "label": label, "schema_text": S.to_prophy(t), "schema": t, "result": r[:40],
                                      "observed": out[i]["ops"][0]["structs"]})
+    return entries, out
+
+
+def main():
+    chk = Check("C08")
+    chk.build()
+    quick = chk.tier == "quick"
+    cases = codec.gen_schemas(chk.tier, chk.seed, want_random=200 if quick else 4000, k=2)
+    if quick:
+        cases = [c for i, c in enumerate(cases) if c[0] != "exhaustive" or i % 4 == 0]
+    corp = []
+    for pid in ("C08", "C03", "C01", "C04"):
+        for f, t, vs, j in codec.load_corpus(pid):
+            if f not in [c[1] for c in corp]:
+                corp.append(("corpus", f, t))
+    cases = corp + cases
+    entries, out = layout_pass(chk, cases)
     chk.coverage["rule"] = ("schema streams as in C01 (raw generator accepts shared counters too). For every struct, part and union of "
                             "every schema the compiled header's __builtin_offsetof/sizeof table (g++ 12, x86-64) is compared inside Coq "
                             "with the spec's member_offsets and with the generator model pc_raw_layout (offsets relative to the start of the struct or partN; optional flag and "
